@@ -143,6 +143,25 @@ func (g *commentGen) trailing() string {
 func genLayoutFile(rt *rapid.T, wrongKind bool) layoutFile {
 	g := &commentGen{rt: rt, styles: map[string]bool{}}
 	var b strings.Builder
+	// comments in front of the package clause are attached to no declaration: licence text, a
+	// header of another code generator, directive-looking lines, a package doc comment
+	switch g.pick(6, "file-header") {
+	case 1:
+		g.styles["file-header:licence"] = true
+		b.WriteString("// Copyright the authors. Licensed under MIT.\n\n")
+	case 2:
+		g.styles["file-header:other-generator"] = true
+		b.WriteString("// Code generated by protoc-gen-go. DO NOT EDIT.\n\n")
+	case 3:
+		g.styles["file-header:directive-text"] = true
+		b.WriteString("// goverter:converter\n// goverter:ignore Header\n\n")
+	case 4:
+		g.styles["file-header:package-doc"] = true
+		b.WriteString("// Package p holds converters.\n// goverter:variables\n")
+	case 5:
+		g.styles["file-header:build-constraint"] = true
+		b.WriteString("//go:build !never_x\n\n")
+	}
 	b.WriteString("package p\n\ntype In struct{ A int }\n\ntype Out struct{ A int }\n\n")
 	var lf layoutFile
 	ndecl := rapid.IntRange(6, 24).Draw(rt, "ndecls")
